@@ -254,7 +254,7 @@ namespace {
 
 }  // namespace
 
-VERIF_SUB_W(table_exhaustive, 0.0005) {
+VERIF_SUB_W(table_exhaustive, 0.000025) {
   const auto& t = table();
   c.check(!t.empty(), "C33.table.empty", "empty table");
   for (std::size_t i = 0; i != t.size(); ++i) checkEntry(c, i);
@@ -281,7 +281,7 @@ VERIF_SUB_W(table_exhaustive, 0.0005) {
          " ordered pairs, executable round trip of every entry");
 }
 
-VERIF_SUB_W(table_entry, 0.2) {
+VERIF_SUB_W(table_entry, 0.02) {
   const auto i = c.pick(table().size(), "entry");
   checkEntry(c, i);
   c.nontrivial(true);
@@ -350,8 +350,8 @@ VERIF_SUB(mangle_random) {
   c.check(tfel::unicode::getMangledString(got) == got, "C33.mangle.idempotent", "mangling twice differs for " + show(s));
 }
 
-VERIF_SUB_W(roundtrip_exec, 0.01) {
-  const auto nb = c.integer(1, 24, "batch");
+VERIF_SUB_W(roundtrip_exec, 0.0005) {
+  const auto nb = c.integer(1, 40, "batch");
   std::vector<std::string> originals;
   bool any_adj = false;
   for (std::int64_t i = 0; i != nb; ++i) {
